@@ -115,4 +115,107 @@ theorem pinv_of_run {k : Kind} {cap : Nat} {es : List Ev} {s : St} (h : (sys k c
   Sys.inv_of_run (sys k cap) (fun s => PInv s.p) Signal.pinv_init
     (fun s e s' hi hs => (psteps_of_step s s' e hs).pinv hi) h
 
+/-! ### shape of an embedded protocol step: only the signal and the actor's pc change -/
+
+/-- the channel-level pc transitions a protocol event can cause -/
+inductive PcTrans : Pc → Pc → Prop
+  | wait : PcTrans .rEmpty .rWaiting
+  | waiting : PcTrans .rWaiting .rWaiting
+  | waited : PcTrans .rWaiting .rTop
+  | raise (v : Nat) : PcTrans (.sPublished v) (.sRaising v)
+  | raise1 (v : Nat) (r : Bool) : PcTrans (.sPublished v) (.sRaised v r)
+  | raising (v : Nat) : PcTrans (.sRaising v) (.sRaising v)
+  | raised (v : Nat) (r : Bool) : PcTrans (.sRaising v) (.sRaised v r)
+
+theorem embedded_shape (s s' : St) (e : PEv) (hs : pEmbedded s e = some s') :
+    ∃ p' X, s' = { s with p := p', pc := upd s.pc (pactor e) X } ∧ PcTrans (s.pc (pactor e)) X := by
+  simp only [pEmbedded] at hs
+  split at hs
+  · rename_i hpc
+    cases h1 : pstep s.p (.callWait (pactor e)) with
+    | none => simp [h1] at hs
+    | some p1 =>
+      cases h2 : pstep p1 e with
+      | none => simp [h1, h2] at hs
+      | some p2 =>
+        simp [h1, h2] at hs; subst hs
+        exact ⟨p2, .rWaiting, rfl, by rw [hpc]; exact .wait⟩
+  · rename_i hpc
+    cases h2 : pstep s.p e with
+    | none => simp [h2] at hs
+    | some p2 =>
+      simp only [h2, Option.bind_eq_bind, Option.bind_some] at hs
+      split at hs
+      · cases h3 : pstep p2 (.retWait (pactor e)) with
+        | none => simp [h3] at hs
+        | some p3 =>
+          simp [h3] at hs; subst hs
+          exact ⟨p3, .rTop, rfl, by rw [hpc]; exact .waited⟩
+      · simp at hs; subst hs
+        refine ⟨p2, .rWaiting, ?_, by rw [hpc]; exact .waiting⟩
+        have : upd s.pc (pactor e) .rWaiting = s.pc := by
+          funext j; simp only [upd]; split
+          · rename_i hj; rw [hj, hpc]
+          · rfl
+        rw [this]
+  · rename_i v hpc
+    cases h1 : pstep s.p (.callRaise (pactor e)) with
+    | none => simp [h1] at hs
+    | some p1 =>
+      cases h2 : pstep p1 e with
+      | none => simp [h1, h2] at hs
+      | some p2 =>
+        simp only [h1, h2, Option.bind_eq_bind, Option.bind_some] at hs
+        split at hs
+        · rename_i r hr
+          cases h3 : pstep p2 (.retRaise (pactor e) r) with
+          | none => simp [h3] at hs
+          | some p3 =>
+            simp [h3] at hs; subst hs
+            exact ⟨p3, .sRaised v r, rfl, by rw [hpc]; exact .raise1 v r⟩
+        · simp at hs; subst hs
+          exact ⟨p2, .sRaising v, rfl, by rw [hpc]; exact .raise v⟩
+  · rename_i v hpc
+    cases h2 : pstep s.p e with
+    | none => simp [h2] at hs
+    | some p2 =>
+      simp only [h2, Option.bind_eq_bind, Option.bind_some] at hs
+      split at hs
+      · rename_i r hr
+        cases h3 : pstep p2 (.retRaise (pactor e) r) with
+        | none => simp [h3] at hs
+        | some p3 =>
+          simp [h3] at hs; subst hs
+          exact ⟨p3, .sRaised v r, rfl, by rw [hpc]; exact .raised v r⟩
+      · simp at hs; subst hs
+        refine ⟨p2, .sRaising v, ?_, by rw [hpc]; exact .raising v⟩
+        have : upd s.pc (pactor e) (.sRaising v) = s.pc := by
+          funext j; simp only [upd]; split
+          · rename_i hj; rw [hj, hpc]
+          · rfl
+        rw [this]
+  · simp at hs
+
+/-- every protocol event of the channel model: only `p` and (possibly) the actor's pc change,
+    along an allowed transition -/
+theorem proto_shape (s s' : St) (pe : PEv) (hs : step s (.p pe) = some s') :
+    (∃ p', s' = { s with p := p' }) ∨
+    (∃ p' X, s' = { s with p := p', pc := upd s.pc (pactor pe) X } ∧ PcTrans (s.pc (pactor pe)) X) := by
+  cases pe with
+  | setWait g f =>
+    simp only [step, Option.map_eq_some_iff] at hs
+    obtain ⟨p', _, rfl⟩ := hs
+    exact Or.inl ⟨p', rfl⟩
+  | callWait f => simp [step] at hs
+  | retWait f => simp [step] at hs
+  | callRaise f => simp [step] at hs
+  | retRaise f r => simp [step] at hs
+  | clrScratch f => exact Or.inr (embedded_shape s s' _ (by simpa [step] using hs))
+  | casWaiter f w ok => exact Or.inr (embedded_shape s s' _ (by simpa [step] using hs))
+  | wStateWaiting f => exact Or.inr (embedded_shape s s' _ (by simpa [step] using hs))
+  | stNone f => exact Or.inr (embedded_shape s s' _ (by simpa [step] using hs))
+  | xchg f old => exact Or.inr (embedded_shape s s' _ (by simpa [step] using hs))
+  | rScratch f g r => exact Or.inr (embedded_shape s s' _ (by simpa [step] using hs))
+  | wStateReady f g => exact Or.inr (embedded_shape s s' _ (by simpa [step] using hs))
+
 end LibfiberVerif.Chan
